@@ -9,7 +9,7 @@ Lemma qsum_map_ext {A} (f g : A -> Q) l : (forall x, f x == g x) -> qsum (map f 
 Proof. intro E. induction l as [|x t IH]; simpl. reflexivity. rewrite E, IH. reflexivity. Qed.
 Lemma qsum_scale {A} c (g : A -> Q) l : qsum (map (fun x => c * g x) l) == c * qsum (map g l).
 Proof. induction l as [|x t IH]; simpl. ring. rewrite IH. ring. Qed.
-Lemma qsum_app l1 l2 : qsum (l1 ++ l2) == qsum l1 + qsum l2.
+Lemma qsum_app l1 l2 : qsum (l1 ++ l2)%list == qsum l1 + qsum l2.
 Proof. induction l1 as [|x t IH]; simpl. ring. rewrite IH. ring. Qed.
 
 Lemma combine_map2 {A B} (f : A -> B) a : forall b,
@@ -165,4 +165,144 @@ Lemma hln_nan_iff d h : hln_sq d h = XNaN <-> v_hat_q d (qmean d) h <= 0.
 Proof.
   unfold hln_sq, v_hat. pose proof (Qle_bool_spec (v_hat_q d (qmean d) h) 0) as A.
   destruct (Qle_bool (v_hat_q d (qmean d) h) 0); split; intro; auto; try discriminate. lra.
+Qed.
+
+(* ------------------------------------------------------------------------------------------ *)
+(* V_hat uses exactly the direct biased autocovariances of lags 0 .. h-1                       *)
+(* ------------------------------------------------------------------------------------------ *)
+(* the textbook index form: sum_{t=k}^{n-1} (d_t - m) (d_{t-k} - m) *)
+Definition gamma_idx (d : list Q) (m : Q) (k : nat) : Q :=
+  qsum (map (fun t => (nth t d 0 - m) * (nth (t - k) d 0 - m)) (seq k (length d - k))).
+(* the direct biased autocovariance estimator at lag k *)
+Definition acov_idx (d : list Q) (k : nat) : Q := gamma_idx d (qmean d) k / qlen d.
+
+Lemma combine_nth_seq (a : list Q) : forall b,
+  combine a b = map (fun i => (nth i a 0, nth i b 0)) (seq 0 (Nat.min (length a) (length b))).
+Proof.
+  induction a as [|x t IH]; intro b. reflexivity.
+  destruct b as [|y u]. reflexivity.
+  cbn [combine length Nat.min seq map nth]. f_equal. rewrite IH, <- seq_shift, map_map. reflexivity.
+Qed.
+Lemma nth_skipn' (d : list Q) : forall k i, nth i (skipn k d) 0 = nth (k + i) d 0.
+Proof. induction d as [|x t IH]; intros k i. destruct k, i; reflexivity. destruct k. reflexivity. simpl. apply IH. Qed.
+Lemma nth_firstn' (d : list Q) : forall n i, (i < n)%nat -> nth i (firstn n d) 0 = nth i d 0.
+Proof. induction d as [|x t IH]; intros n i Hi. destruct n, i; reflexivity. destruct n. lia. destruct i. reflexivity. simpl. apply IH. lia. Qed.
+Lemma seq_from k len : seq k len = map (Nat.add k) (seq 0 len).
+Proof. induction k. simpl. rewrite map_id. reflexivity. rewrite <- seq_shift, IHk, map_map. reflexivity. Qed.
+
+Lemma gamma_index d m k : gamma d m k = gamma_idx d m k.
+Proof.
+  unfold gamma, gamma_idx, lag_pairs. rewrite combine_nth_seq, skipn_length, firstn_length.
+  replace (Nat.min (length d - k) (Nat.min (length d - k) (length d))) with (length d - k)%nat by lia.
+  rewrite map_map. cbn [fst snd]. rewrite (seq_from k), map_map. f_equal. apply map_ext_in. intros i Hi.
+  apply in_seq in Hi. rewrite nth_skipn', nth_firstn' by lia. replace (k + i - k)%nat with i by lia. reflexivity.
+Qed.
+
+Theorem vhat_uses_lags_below_h d m h :
+  v_hat_q d m h == (gamma_idx d m 0 + 2 * qsum (map (fun k => gamma_idx d m (S k)) (seq 0 (h - 1)))) / (qlen d * qlen d).
+Proof. unfold v_hat_q. rewrite gamma_index. rewrite (map_ext _ _ (fun k => gamma_index d m (S k))). reflexivity. Qed.
+
+(* in terms of the autocovariance estimator:  V_hat = (acov_0 + 2 sum_{k=1}^{h-1} acov_k) / n *)
+Theorem vhat_from_autocovariances d h : (0 < length d)%nat ->
+  v_hat_q d (qmean d) h == (acov_idx d 0 + 2 * qsum (map (fun k => acov_idx d (S k)) (seq 0 (h - 1)))) / qlen d.
+Proof.
+  intro Hn. pose proof (qn_pos (length d) Hn) as P. fold (qlen d) in P.
+  rewrite vhat_uses_lags_below_h. unfold acov_idx.
+  rewrite (qsum_map_ext (fun k => gamma_idx d (qmean d) (S k) / qlen d) (fun k => (/ qlen d) * gamma_idx d (qmean d) (S k)))
+    by (intro; unfold Qdiv; ring).
+  rewrite (qsum_scale (/ qlen d) (fun k => gamma_idx d (qmean d) (S k))). field. lra.
+Qed.
+
+(* lag h enters only from h+1 on *)
+Theorem vhat_step d m h : (1 <= h)%nat ->
+  v_hat_q d m (S h) == v_hat_q d m h + 2 * gamma d m h / (qlen d * qlen d).
+Proof.
+  intro Hh. unfold v_hat_q. replace (S h - 1)%nat with (S (h - 1)) by lia.
+  rewrite seq_S, map_app, qsum_app. cbn [map qsum]. replace (S (0 + (h - 1))) with h by lia. unfold Qdiv. ring.
+Qed.
+
+(* two series with the same length and the same sums at lags below h have the same V_hat *)
+Theorem vhat_depends_only_on_lags_below_h d d' m m' h : length d = length d' ->
+  (forall k, (k < Nat.max h 1)%nat -> gamma_idx d m k == gamma_idx d' m' k) -> v_hat_q d m h == v_hat_q d' m' h.
+Proof.
+  intros L E. rewrite !vhat_uses_lags_below_h. unfold qlen. rewrite L. rewrite (E O) by lia.
+  assert (S : qsum (map (fun k => gamma_idx d m (S k)) (seq 0 (h - 1))) == qsum (map (fun k => gamma_idx d' m' (S k)) (seq 0 (h - 1)))).
+  { assert (G : forall l, (forall k, In k l -> (k < h - 1)%nat) ->
+                qsum (map (fun k => gamma_idx d m (S k)) l) == qsum (map (fun k => gamma_idx d' m' (S k)) l)).
+    { induction l as [|x t IH]; intro B. reflexivity. cbn [map qsum]. rewrite IH by (intros; apply B; right; auto).
+      rewrite (E (S x)). reflexivity. assert (x < h - 1)%nat by (apply B; left; auto). lia. }
+    apply G. intros k Hk. apply in_seq in Hk. lia. }
+  rewrite S. reflexivity.
+Qed.
+
+(* ------------------------------------------------------------------------------------------ *)
+(* NaN removal, length, independence of the series of one call                                 *)
+(* ------------------------------------------------------------------------------------------ *)
+Lemma qvalids_app l1 l2 : qvalids (l1 ++ l2)%list = (qvalids l1 ++ qvalids l2)%list.
+Proof. unfold qvalids. apply flat_map_app. Qed.
+Lemma qvalids_nan l1 l2 : qvalids (l1 ++ XNaN :: l2)%list = qvalids (l1 ++ l2)%list.
+Proof. rewrite !qvalids_app. reflexivity. Qed.
+(* a NaN anywhere in a series is removed before anything is computed *)
+Theorem dm_row_nan_removed l1 l2 hv : dm_row_of (l1 ++ XNaN :: l2)%list hv = dm_row_of (l1 ++ l2)%list hv.
+Proof. unfold dm_row_of. rewrite qvalids_nan, nanmean_skip. reflexivity. Qed.
+(* timeseries_len counts the finite values *)
+Theorem dm_row_len series hv : r_len (dm_row_of series hv) = length (qvalids series).
+Proof. reflexivity. Qed.
+Lemma qvalids_fins l : qvalids (fins l) = l.
+Proof. induction l; simpl; auto. f_equal; auto. Qed.
+
+(* each series of a call is treated on its own *)
+Theorem dm_series_independent rows hs method cl dist out i : length rows = length hs -> (i < length rows)%nat ->
+  diebold_mariano_m rows hs method cl dist = Ok out ->
+  nth i out (dm_row_of [] XNaN) = dm_row_of (nth i rows []) (nth i hs XNaN).
+Proof.
+  intros L Hi E. unfold diebold_mariano_m in E.
+  repeat match type of E with (if ?c then _ else _) = _ => destruct c; [discriminate|] end.
+  injection E as E. subst out.
+  change (dm_row_of [] XNaN) with ((fun p => dm_row_of (fst p) (snd p)) ([], XNaN)).
+  rewrite map_nth, combine_nth by exact L. reflexivity.
+Qed.
+
+(* ------------------------------------------------------------------------------------------ *)
+(* confidence interval                                                                         *)
+(* ------------------------------------------------------------------------------------------ *)
+(* every finite non-zero statistic s (any rational, hence any binary64 value) of the sign of the mean:
+   the faithful formulas give finite end points that bracket the mean with half-width q * |mean / s| *)
+Theorem ci_brackets_mean m q s : 0 < q -> 0 < m * s ->
+  exists lo up, ci_lower_m (XFin m) (XFin q) (XFin s) = XFin lo /\ ci_upper_m (XFin m) (XFin q) (XFin s) = XFin up
+    /\ lo <= m <= up /\ up - m == q * Qabs (m / s) /\ m - lo == q * Qabs (m / s).
+Proof.
+  intros Pq Pms.
+  assert (Ns : ~ s == 0) by (intro E; rewrite E in Pms; lra).
+  assert (Pr : 0 < m / s).
+  { assert (E : m / s == (m * s) / (s * s)) by (field; auto).
+    rewrite E. apply Qlt_shift_div_l. destruct (Q_dec s 0) as [[L|G]|E0]; [nra|nra|contradiction]. lra. }
+  unfold ci_lower_m, ci_upper_m, xsub, xadd, xmul, xdiv, xneg, X1.
+  pose proof (Qeq_bool_spec s 0) as Z. destruct (Qeq_bool s 0); [contradiction|].
+  eexists. eexists. split; [reflexivity|]. split; [reflexivity|].
+  rewrite (Qabs_pos (m / s)) by lra.
+  assert (E1 : m * (1 + q / s) - m == q * (m / s)) by (field; auto).
+  assert (E2 : m - m * (1 + - (q / s)) == q * (m / s)) by (field; auto).
+  assert (0 < q * (m / s)) by nra.
+  split; [|split]; [|exact E1|exact E2]. lra.
+Qed.
+
+(* FINDING 7: statistic exactly 0 (zero mean, positive variance estimate): 0 * (1 -+ q/0) = 0 * inf = NaN *)
+Lemma ci_nan_at_zero q : 0 < q ->
+  ci_lower_m (XFin 0) (XFin q) (XFin 0) = XNaN /\ ci_upper_m (XFin 0) (XFin q) (XFin 0) = XNaN.
+Proof.
+  intro P. unfold ci_lower_m, ci_upper_m, xsub, xadd, xmul, xdiv, xneg, X1, Qsgn.
+  change (Qeq_bool 0 0) with true. cbv iota.
+  assert (C : (q ?= 0) = Gt) by (apply Qgt_alt; exact P). rewrite C. split; reflexivity.
+Qed.
+
+Definition wit_d : list Q := [1; -1; 1; -1].
+Theorem ci_zero_mean_refuted :
+  exists (d : list Q) (h : nat) (q : Q), (0 < h < length d)%nat /\ 0 < q /\
+    qmean d == 0 /\ dm_stat_hln d h =x= XFin 0 /\      (* the statistic is finite (zero) ... *)
+    ci_lower_m (XFin (qmean d)) (XFin q) (dm_stat_hln d h) = XNaN /\   (* ... but the reported end points are NaN *)
+    ci_upper_m (XFin (qmean d)) (XFin q) (dm_stat_hln d h) = XNaN.
+Proof.
+  exists wit_d, 1%nat, 2. split. simpl; lia. split. reflexivity.
+  split. vm_compute. reflexivity. split. vm_compute. reflexivity. split; vm_compute; reflexivity.
 Qed.
